@@ -109,7 +109,8 @@ CHECKS = {
         "text": "Partial, static: a necessary condition for completeness of exhaustive simulation - the exhaustive driver can only enumerate the domains the hooks offer it. For all 15 usize ranges "
                 "handed to the bolero generator in the 18 simulator hook impls, both bounds are reconstructed from MIR def-use provenance and must be: upper = len() of a collection (count or "
                 "exclusive index bound), len-1 as an inclusive last index, a Fisher-Yates loop variable, or one reviewed stored length; lower = 0, the forced-progress 0|1, an earlier draw or a "
-                "loop variable - no clamping or other arithmetic. NOT decided: that bolero enumerates each offered domain completely, that every order of ready ticks/observations is offered, "
+                "loop variable - no clamping or other arithmetic; and for the seven hooks that pick elements one at a time, on the control-flow graph specialised to force_nontrivial == false every "
+                "removal is preceded by a boolean draw that can decline it (the empty subset and every early stop are offered). NOT decided: that bolero enumerates each offered domain completely, that every order of ready ticks/observations is offered, "
                 "and that the NoOrder min_index pruning only removes intra-batch permutations.",
         "note": "an unrecognised rewrite of a bound is reported (fail closed) with the reconstructed expression.",
         "technique": "def-use provenance reconstruction of generator domains on rustc MIR, matched against an enumerated set of accepted bound forms",
